@@ -22,6 +22,8 @@ DEFS = [
     "DEFINE ROT <ID> <ID> <ID> AS #0 := $0 ; $0 := $1 ; $1 := $2 ; $2 := #0 END DEFINE",
     "DEFINE TWICE <P> ECIWT AS #1 := 2 ; LOOP #1 DO $0 END END DEFINE",
     # two-digit temporaries beside their one-digit prefixes: #1, #10, #11, #100 are four different variables
+    # an expansion that is SHORTER than the use (a whole statement slot is dropped), used inside its own slot
+    "DEFINE KEEP <ID> OVER <P> INSTEADOF <P> PEEK AS #0 := $0 ; $1 ; $0 := #0 END DEFINE",
     "DEFINE ROT4 <ID> <ID> <ID> <ID> AS #10 := $0 ; #1 := $1 ; #11 := $2 ; #100 := $3 ; $0 := #100 ; $1 := #10 ; $2 := #1 ; $3 := #11 END DEFINE",
 ]
 VARS = ["x", "y", "z", "u"]
@@ -30,6 +32,9 @@ VARS = ["x", "y", "z", "u"]
 def stmt(r, depth):
     q = r.random()
     a, b, c = r.sample(VARS, 3)
+    if depth < 3 and q > 0.97:
+        return ["KEEP", a, "OVER", "KEEP", b, "OVER", a, ":=", "7", ";", b, ":=", "8", "INSTEADOF", c, ":=", "1", ";", c, ":=", "2", "PEEK",
+                "INSTEADOF", c, ":=", "3", ";", c, ":=", "4", ";", c, ":=", "5", "PEEK"]
     if depth >= 3 or q < 0.25:
         return r.choice([[a, ":=", b, "+", str(r.randint(0, 3))], [a, ":=", str(r.randint(0, 4))], ["SWAP", a, b], ["ROT", a, b, c]])
     if q < 0.45:
@@ -38,8 +43,10 @@ def stmt(r, depth):
         return ["IFZ", r.choice([a, "0", "1"]), "THEN"] + seq(r, depth + 1) + ["ELSE"] + seq(r, depth + 1) + ["FI"]
     if q < 0.8:
         return ["TWICE"] + seq(r, depth + 1) + ["ECIWT"]
-    if q < 0.87:
+    if q < 0.84:
         return ["SWAP", a, b]
+    if q < 0.87:
+        return ["KEEP", a, "OVER"] + seq(r, depth + 1) + ["INSTEADOF"] + seq(r, 3) + [";"] + seq(r, 3) + ["PEEK"]
     if q < 0.94:
         return ["ROT4", a, b, c, [v for v in VARS if v not in (a, b, c)][0]]
     return ["ROT", a, b, c]
